@@ -165,6 +165,15 @@ def fam_deps():
     return Family("deps", v, ["s1", "s2"], ["o1", "o2"], ["all"])
 
 
+def fam_deps2():
+    # several dependency files, each naming a different undeclared input (every file has to be read)
+    b = Desc("base", [Cmd("C1", ["s1"], ["o1"], extras=["s2", "s3"], deps=(["o1.d", "o1b.d"], "makefile")),
+                      Cmd("C2", ["o1"], ["o2"])], {"all": ["o2"]})
+    v = [b, replace(b, "depinfo2", Cmd("C1", ["s1"], ["o1"], extras=["s2", "s3"], deps=(["o1.d", "o1b.d"], "dependency-info"))),
+         replace(b, "one-file", Cmd("C1", ["s1"], ["o1"], extras=["s2", "s3"], deps=("o1.d", "makefile")))]
+    return Family("deps2", v, ["s2", "s3"], ["o1"], ["all"], init={"s1": "s1:0", "s2": "s2:0", "s3": "s3:0"}, quick=True)
+
+
 def fam_chain3():
     b = Desc("base", [Cmd("C1", ["s1"], ["o1"]), Cmd("C2", ["o1"], ["o2"]), Cmd("C3", ["o2", "s2"], ["o3"])],
              {"all": ["o3"], "mid": ["o2"]})
@@ -312,7 +321,7 @@ def fam_default():
 
 def all_families():
     fs = [fam_chain(), fam_diamond(), fam_multi(), fam_virt(), fam_dir(), fam_tools(), fam_typedir(),
-          fam_isdir(), fam_aood(), fam_allowmissing(), fam_deps(), fam_chain3(), fam_fanin(), fam_fanout(),
+          fam_isdir(), fam_aood(), fam_allowmissing(), fam_deps(), fam_deps2(), fam_chain3(), fam_fanin(), fam_fanout(),
           fam_phonyfile(), fam_dirchain(), fam_dirmulti(), fam_srcdir2(), fam_mkdirs(), fam_links(),
           fam_twoprod(), fam_selfgen(), fam_nodetype(), fam_virtchain(), fam_multi3(), fam_modout(), fam_default()]
     return fs
